@@ -41,7 +41,7 @@ ASSUMPTIONS = [
 ]
 BUDGET = {"quick": (500, 75), "thorough": (3000, 600)}
 
-KINDS_REAL = ["op", "sa", "ham", "dm", "tdm", "sop", "lind_op", "lind_tensor"]
+KINDS_REAL = ["op", "sa", "ham", "dm", "tdm", "sop", "lind_op", "lind_tensor", "tdsop"]
 KINDS_CPLX = ["op", "sa", "ham", "dm"]
 
 
@@ -55,7 +55,7 @@ def _stmts(depth, dim, top=False):
     ints = st.lists(st.integers(-4, 4), min_size=2 * dim * dim, max_size=2 * dim * dim)
     idx = st.integers(0, 30)
     create = st.builds(lambda k, d, f: {"s": "create", "kind": k, "data": d, "flag": f},
-                       st.integers(0, 7), ints, st.integers(0, 3))
+                       st.integers(0, 8), ints, st.integers(0, 3))
     read = st.builds(lambda o: {"s": "read", "o": o}, idx)
     write = st.builds(lambda o, d, e: {"s": "write", "o": o, "data": d, "elem": e}, idx, ints, st.booleans())
     apply_ = st.builds(lambda t, o: {"s": "apply", "t": t, "o": o}, idx, idx)
@@ -139,6 +139,9 @@ def _value(kind, data, dim, cplx, flag, degenerate=0):
                     for d in range(dim):
                         R[a, b, c, d] = ((a * 7 + b * 3 + c * 5 + d * 11 + s + int(M.real[a, c])) % 5) - 2
         return R
+    if kind == "tdsop":
+        # a time-dependent relaxation tensor: three time slices of a four-index tensor
+        return numpy.array([_value("sop", [x + k for x in data], dim, cplx, flag) * (k + 1.0) for k in range(3)])
     raise HarnessError("kind " + kind)
 
 
@@ -199,6 +202,8 @@ class Machine(object):
         if kind in ("sop", "lind_tensor"):
             # real orthogonal T in these programs
             return numpy.einsum("ia,jb,ijkl,kc,ld->abcd", T.conj(), T, ref, T, T.conj())
+        if kind == "tdsop":
+            return numpy.array([numpy.einsum("ia,jb,ijkl,kc,ld->abcd", T.conj(), T, r, T, T.conj()) for r in ref])
         raise HarnessError("kind " + kind)
 
     def to_outer(self, val, kind):
@@ -210,6 +215,8 @@ class Machine(object):
             return numpy.stack([T @ val[:, :, i] @ Ti for i in range(3)], axis=2)
         if kind in ("sop", "lind_tensor"):
             return numpy.einsum("ai,bj,ijkl,ck,dl->abcd", T, T.conj(), val, T.conj(), T)
+        if kind == "tdsop":
+            return numpy.array([numpy.einsum("ai,bj,ijkl,ck,dl->abcd", T, T.conj(), v, T.conj(), T) for v in val])
         raise HarnessError("kind " + kind)
 
     def scale(self, ref):
@@ -248,6 +255,13 @@ class Machine(object):
                 live = TransitionDipoleMoment(data=val.copy())
             elif kind == "sop":
                 live = SuperOperator(data=val.copy())
+            elif kind == "tdsop":
+                from quantarhei.qm.liouvillespace.relaxationtensor import RelaxationTensor
+                # (the generic relaxation tensor that the time-dependent Foerster-type tensors inherit their basis
+                # handling from; its subclasses set `dim` from their Hamiltonian)
+                live = RelaxationTensor()
+                live.dim = dim
+                live.data = val.copy()
             obj = Obj(kind, live, self.to_outer(val, kind))
         if inside:
             self.created_inside += 1
